@@ -392,7 +392,14 @@ def _fields(repo, rep):
                   if isinstance(w, A.NodeV) and w.kind == "Attribute"]
     ok = False
     for a in attr_nodes:
-        t = [A.show(x) for x in a.args[:5]]
+        args5 = list(a.args[:5])
+        # the quote of a static attribute is the written one; only when a
+        # computed value goes into an unquoted value it is replaced by '"'
+        # (the branch taken for static text is the lexical field)
+        if len(args5) > 2 and isinstance(args5[2], A.Alt) and \
+                "[1][5] is not None" in args5[2].test:
+            args5[2] = args5[2].b
+        t = [A.show(x) for x in args5]
         # loop target is (name, text, quote, space, eq, expr)
         idx = [x.split("]")[-2][-1] if "[" in x else "?" for x in t]
         if len(t) == 5 and t[0].endswith("[1][0]") and \
